@@ -5,9 +5,12 @@
 set -uo pipefail
 V=$(cd "$(dirname "$0")/.." && pwd)
 W=$1; P=$2; L=$3
-id=$(echo "$P" | tr A-Z a-z)-agent-$(echo "$L" | tr A-Z a-z)
+id=$(echo "$P" | tr A-Z a-z)-${WAVE:-agent}-$(echo "$L" | tr A-Z a-z)
 D="$V/seeded/$id"; mkdir -p "$D"
 cp "$W/mut$L.diff" "$D/patch.diff"; cp "$W/demo${L}_test.go.txt" "$D/demo_test.go.txt"; cp "$W/NOTES.md" "$D/AGENT_NOTES.md"
+[ -f "$D/props.txt" ] || echo "$P" > "$D/props.txt"
+[ -f "$D/source.txt" ] || echo "sub-agent${WAVE:+ ($WAVE)}" > "$D/source.txt"
+[ -f "$D/needs.txt" ] || echo "see AGENT_NOTES.md, variant $L" > "$D/needs.txt"
 dest=$(head -12 "$D/demo_test.go.txt" | grep -o 'internal/[a-z]*/[a-zA-Z0-9_]*_test\.go' | head -1)
 run=$(head -14 "$D/demo_test.go.txt" | grep -o "\-run '\?[A-Za-z0-9_]*'\?" | head -1 | sed "s/-run //; s/'//g")
 [ -n "$run" ] || run=Demo
